@@ -6,7 +6,7 @@
 From Coq Require Import ZArith List.
 From BS Require Import Model.Base Model.Num Model.LibVal Gen.ArgSpecs Model.LibSeq Proofs.C15.
 From BS Require Import Proofs.C15spec Proofs.C15histd Proofs.C15histe Proofs.C15histf.
-From BS Require Import Proofs.C15spec2 Proofs.C15str Proofs.C15histg Proofs.C15aeq Proofs.C15histi Proofs.C15histj Proofs.C15histk Proofs.C15spec3 Proofs.C15histl.
+From BS Require Import Proofs.C15spec2 Proofs.C15str Proofs.C15strb Proofs.C15histg Proofs.C15aeq Proofs.C15histi Proofs.C15histj Proofs.C15histk Proofs.C15spec3 Proofs.C15histl.
 From Coq Require Import SpecFloat.
 Import ListNotations.
 Local Open Scope Z_scope.
@@ -336,6 +336,19 @@ Theorem C15_spec_first_occurrence : forall sub s from,
   end.
 Proof. intros. destruct (first_occ sub s from) eqn:E; [apply first_occ_least; exact E | apply first_occ_none; exact E]. Qed.
 Print Assumptions C15_spec_first_occurrence.
+Theorem C15_spec_last_occurrence : forall sub s upto,
+  match last_occ sub s upto with
+  | Some i => (i <= upto)%nat /\ (i <= length s)%nat /\ (exists t, skipn i s = sub ++ t)
+              /\ forall j, (i < j <= upto)%nat -> (j <= length s)%nat -> ~ exists t, skipn j s = sub ++ t
+  | None => forall j, (j <= upto)%nat -> (j <= length s)%nat -> ~ exists t, skipn j s = sub ++ t
+  end.
+Proof. exact last_occ_greatest. Qed.
+Print Assumptions C15_spec_last_occurrence.
+Theorem C15_spec_split_replace : forall s sep, sep <> [] ->
+  join_with sep (split_on sep s) = s /\ replace_all s sep sep = s
+  /\ (forall new, first_occ sep s 0 = None -> replace_all s sep new = s).
+Proof. intros s sep NE. split; [apply split_on_join; exact NE|]. split; [apply replace_all_same; exact NE|]. intros. apply replace_all_absent; auto. Qed.
+Print Assumptions C15_spec_split_replace.
 Theorem C15_spec_trim : forall s, exists a b, s = a ++ trim s ++ b /\ forallb U_space a = true /\ forallb U_space b = true
   /\ match trim s with c :: _ => U_space c = false | [] => True end
   /\ match rev (trim s) with c :: _ => U_space c = false | [] => True end.
